@@ -16,6 +16,7 @@ use serde_json::{json, Map, Value};
 
 mod c08;
 mod c13;
+mod c14h;
 mod c15;
 mod c16;
 mod c17;
